@@ -137,16 +137,19 @@ def coq_optmap(s):
         return 'None'
     return '(Some %s)' % coq_smap_fields(*s.split(';'))
 
-def tree_crosscheck(case_lines, model_kvs, limit=25):
+def tree_crosscheck(case_lines, model_kvs, limit=25, impl_kvs=None, verdicts=None, prop=None):
     """'id tree <src> <nwarm> (<cache id> <op>)*' : source(), the four streams with their end info and both
     maps as printed by the extracted OCaml must be what the kernel computes for the independently
     translated term"""
-    body = ['From RS Require Import Base.Prelude Base.Text Codec.Vlq Stream.Types Stream.Tree Api.ApiTree.',
+    body = ['From RS Require Import Base.Prelude Base.Text Codec.Vlq Stream.Types Stream.Tree Api.ApiTree Api.ApiCheck.',
             'Open Scope N_scope.']
     n = 0
     for line in case_lines:
         toks = [x for x in line.split(' ') if x != '']
         if len(toks) < 3 or toks[1] != 'tree' or len(line) > 700:
+            continue
+        # call-by-value evaluation inside Coq builds unary numbers the lazy `||` of the extracted code never touches
+        if any(x.isdigit() and int(x) > 10 ** 6 for x in toks[2:]):
             continue
         kv = model_kvs.get(toks[0])
         if not kv or 'MODELERR' in kv or any(k not in kv for k in ('src', 'e10', 'g10', 'm1', 'm0')):
@@ -169,6 +172,24 @@ def tree_crosscheck(case_lines, model_kvs, limit=25):
             continue
         body.append('Example x%d : (let o := api_tree %s %s in (to_source o, to_streams o, to_maps o)) = %s.\n'
                     'Proof. vm_compute. reflexivity. Qed.' % (n, term, coq_list(ws, lambda x: x), exp))
+        # the extracted CHECKER too: its verdict on what the implementation answered
+        iv = (impl_kvs or {}).get(toks[0]); vd = (verdicts or {}).get(toks[0])
+        if iv and vd and prop and not any(str(x).startswith('PANIC') for x in iv.values()) \
+           and all(k in iv for k in ('src', 'buf', 'size', 'rope', 'wr', 'm1', 'm0')):
+            try:
+                code = 0 if vd == 'OK' else 100 if vd == 'SKIP' else int(vd.split('clause=')[1].split()[0])
+                st2 = []
+                for tag in ('10', '00', '11', '01'):
+                    gl, gc = iv['g' + tag].split(':')
+                    st2.append('(%s, (%s, %s))' % (coq_events(iv['e' + tag]), gl, gc))
+                obs = '(mkTreeObs %s %s %s %s %s %s %s)' % (
+                    coq_text(iv['src']), coq_text(iv['buf']), iv['size'], coq_opt_text(iv['rope']),
+                    coq_text_list(iv['wr']), coq_list(st2, lambda x: x),
+                    coq_list([coq_optmap(iv['m1']), coq_optmap(iv['m0'])], lambda x: x))
+                body.append('Example v%d : api_check_tree %d %s %s %s = %d.\nProof. vm_compute. reflexivity. Qed.'
+                            % (n, int(prop[1:]), term, coq_list(ws, lambda x: x), obs, code))
+            except Exception:
+                pass
         n += 1
         if n >= limit:
             break
